@@ -38,6 +38,9 @@ type c03Case struct {
 	B     obs.Hex   `json:"bytes"`
 	Conv  []obs.Hex `json:"conversation,omitempty"` // netboot: a sequence of datagrams
 	Bound int       `json:"bound,omitempty"`        // raw: 0 bound to port 68, 1 no bound address (nil), 2 bound to an address and port
+	// raw: Buf > 0: the caller's read buffer is Buf octets shorter than the frame (min 0) instead of 2048 octets; odd
+	// values allocate it exactly (len == cap), even ones as the front of a larger array
+	Buf int `json:"buf,omitempty"`
 }
 
 var c03Entries = []string{"v4", "v4opts", "v4types", "v6", "v6msg", "v6relay", "v6opt", "duid", "labels", "archs", "raw", "netboot6", "netboot4"}
@@ -177,8 +180,13 @@ func c03Run(c c03Case) (accepted bool, observers int, f *obs.Fail) {
 		}
 		conn := nclient4.NewBroadcastUDPConn(raw, ba)
 		buf := make([]byte, 2048)
+		if c.Buf > 0 {
+			buf = make([]byte, max(0, len(c.B)-c.Buf), max(0, len(c.B)-c.Buf)+(1-c.Buf%2)*64)
+		}
 		n, _, err := conn.ReadFrom(buf)
-		_ = n
+		if n > len(buf) {
+			return false, 0, obs.Failf("C03/raw/count-beyond-buffer", fmt.Sprintf("at most %d octets", len(buf)), "n=%d", n)
+		}
 		return err == nil, 1, nil
 	case "netboot6":
 		var conv []dhcpv6.DHCPv6
@@ -450,6 +458,9 @@ func genC03() *rapid.Generator[c03Case] {
 		case "archs":
 			c.B = gen.Fill(t, rapid.IntRange(0, 9).Draw(t, "n"), "a")
 		case "raw":
+			if rapid.IntRange(0, 3).Draw(t, "shortbuf") == 0 {
+				c.Buf = rapid.IntRange(1, 140).Draw(t, "buf")
+			}
 			f := genC18Read().Draw(t, "frames")
 			var bound [4]byte
 			b, _ := f.Frames[0].build(bound, false, 68)
@@ -585,6 +596,26 @@ func TestC03_HelperMatrix(t *testing.T) {
 				c03.one(t, c03Case{Entry: "v4", B: append(p, 53, 1, 1, 255)})
 			}
 		}
+		// relay agent information with the string as circuit-id (remote-id) and every shape of the other sub-option the
+		// extractors fall back to: absent, empty, one zero octet, two, a short text
+		if len(s) <= 120 {
+			for _, other := range shapes {
+				for swap := 0; swap < 2; swap++ {
+					c1, c2 := byte(1), byte(2)
+					if swap == 1 {
+						c1, c2 = 2, 1
+					}
+					v := append([]byte{c1, byte(len(s))}, s...)
+					if other != nil {
+						v = append(append(v, c2, byte(len(other))), other...)
+					}
+					p := append(append(v4Prefix(), 82, byte(len(v))), v...)
+					c03.one(t, c03Case{Entry: "v4", B: append(p, 53, 1, 1, 255)})
+				}
+			}
+			v := append(append([]byte{1, byte(len(s))}, s...), 2, 2, 0, 0)
+			c03.one(t, c03Case{Entry: "v4", B: append(append(append(v4Prefix(), 82, byte(len(v))), v...), 53, 1, 1, 255)})
+		}
 		// companion options whose text coincides with a part of the class identifier: each field of the identifier
 		// (split on the separators above), alone, followed by a separator, and followed by a separator and more text
 		// — a parser that relates the two options (prefix, suffix, equality) meets the equal and the nearly equal case
@@ -717,6 +748,13 @@ func TestC03_RawFields(t *testing.T) {
 					f[6], f[7] = byte(fw>>8), byte(fw)
 					for bound := 0; bound <= 2; bound++ {
 						c03.one(t, c03Case{Entry: "raw", B: f, Bound: bound})
+					}
+					if ul == 8+plen+1 && fw == 0 {
+						// the well-formed frame itself (UDP length restored) read into caller buffers shorter than its payload
+						g := append([]byte{}, base...)
+						for short := 1; short <= 72; short++ {
+							c03.one(t, c03Case{Entry: "raw", B: g, Buf: ihl*4 + 8 + short})
+						}
 					}
 				}
 			}
